@@ -125,21 +125,19 @@ impl<I: ObjectWrite> Stream<I> {
             Primitive::Null => Dictionary::new(),
             p => bail!("stream info has to be a dictionary (found {:?})", p)
         };
-        let mut params = None;
+        // /DecodeParms parallels /Filter: one dictionary for one filter, else an array with null for filters without parameters
+        let mut params = Vec::with_capacity(self.info.filters.len());
+        for f in self.info.filters.iter() {
+            params.push(match f {
+                StreamFilter::LZWDecode(ref p) => p.to_primitive(update)?,
+                StreamFilter::FlateDecode(ref p) => p.to_primitive(update)?,
+                StreamFilter::DCTDecode(ref p) => p.to_primitive(update)?,
+                StreamFilter::CCITTFaxDecode(ref p) => p.to_primitive(update)?,
+                StreamFilter::JBIG2Decode(ref p) => p.to_primitive(update)?,
+                _ => Primitive::Null
+            });
+        }
         if self.info.filters.len() > 0 {
-            for f in self.info.filters.iter() {
-                if let Some(para) = match f {
-                    StreamFilter::LZWDecode(ref p) => Some(p.to_primitive(update)?),
-                    StreamFilter::FlateDecode(ref p) => Some(p.to_primitive(update)?),
-                    StreamFilter::DCTDecode(ref p) => Some(p.to_primitive(update)?),
-                    StreamFilter::CCITTFaxDecode(ref p) => Some(p.to_primitive(update)?),
-                    StreamFilter::JBIG2Decode(ref p) => Some(p.to_primitive(update)?),
-                    _ => None
-                } {
-                    assert!(params.is_none());
-                    params = Some(para);
-                }
-            }
             let mut filters = self.info.filters.iter().map(|filter| match filter {
                 StreamFilter::ASCIIHexDecode => "ASCIIHexDecode",
                 StreamFilter::ASCII85Decode => "ASCII85Decode",
@@ -163,8 +161,12 @@ impl<I: ObjectWrite> Stream<I> {
                 }
             }
         }
-        if let Some(para) = params {
-            info.insert("DecodeParms", para);
+        if params.iter().any(|p| !matches!(p, Primitive::Null)) {
+            if params.len() == 1 {
+                info.insert("DecodeParms", params.pop().unwrap());
+            } else {
+                info.insert("DecodeParms", Primitive::Array(params));
+            }
         }
 
         let inner = match self.inner_data {
